@@ -150,6 +150,12 @@ func (e *Exec) confineDone(fn *ssa.Function, c *Contract) error {
 			return fmt.Errorf("out of subset: on-slice clause %s:%s applies at no slice expression of %s", os.Field, lbl, FuncName(fn))
 		}
 	}
+	for _, nd := range c.NoMapDeletes {
+		if !e.confineHit["nomapdel:"+nd] {
+			e.curFr, e.curIn = nil, nil
+			e.oblige(&State{pc: True, heap: map[string]*Term{}}, "no-map-delete", nd, True, "")
+		}
+	}
 	for _, cf := range c.Confines {
 		found := false
 		for _, p := range fn.Params {
